@@ -33,3 +33,6 @@ REG.bounded_check("C15.solutions", ["C15"], "C15.bounded",
 REG.bounded_check("C18.layering", ["C18"], "C18.bounded",
                   covers=["Options.from_option_list (sorted by sort_key)", "parse_config_file / extend_config", "Options.for_module / get_value_for", "NameCheckVisitor.prepare_constructor_kwargs"],
                   bound="two chained config files x every subset of <= 3 of {command line, main a.b / a / top-level, base a.b / a / top-level} x extend_config first/last x 5 module paths, integer and list option; falsy and truthy command-line values over a config file")
+REG.bounded_check("C08.reference_resolver", ["C08"], "C08.bounded",
+                  covers=["Signature.check_call_preprocessed / bind_arguments (as used by overload resolution)", "@overload collection (extensions.py, arg_spec.py)", "union decomposition (_check_param_type_compatibility)"],
+                  bound="7 overload sets (3 signatures, arity 1-2, overlapping and shadowed) x all literal argument tuples of length <= 2 over 5 literals; one union-argument and one Any-argument case")
